@@ -397,7 +397,11 @@ fn lit_normal(v: &str, rng: &mut Rng) -> String {
             '\t' => o.push_str(if rng.chance(1, 2) { "\\t" } else { "\\u0009" }),
             '/' if rng.chance(1, 3) => o.push_str("\\/"),
             c if (c as u32) < 0x20 || (0x7f..0xa0).contains(&(c as u32)) => o.push_str(&if rng.chance(1, 2) { format!("\\u{:04x}", c as u32) } else { format!("\\u{{{:X}}}", c as u32) }),
-            c if (c as u32) > 0xffff && rng.chance(1, 2) => o.push_str(&format!("\\u{{{:x}}}", c as u32)),
+            c if (c as u32) > 0xffff && rng.chance(2, 3) => {
+                // variable-width escape, or a surrogate pair of fixed-width escapes (decoded since /repo a4a3647)
+                if rng.chance(1, 2) { o.push_str(&format!("\\u{{{:x}}}", c as u32)); }
+                else { let v = c as u32 - 0x10000; o.push_str(&format!("\\u{:04x}\\u{:04X}", 0xd800 + (v >> 10), 0xdc00 + (v & 0x3ff))); }
+            }
             c => o.push(c),
         }
     }
